@@ -26,10 +26,21 @@ StrRegs == {Plain(NULL), Plain("=x")}
 PairRegs == {Pair(NULL, NULL), Pair("=h", NULL)}
 ListRegs == {List(<<>>), List(<<"=x">>)}
 
-(* q1: the three leaf kinds under one name at the root (set order by name, then type) *)
-U_q1 == {as, ai, al}
-V_q1 == (as :> StrVals) @@ (ai :> PairVals) @@ (al :> ListVals)
-R_q1 == (as :> StrRegs) @@ (ai :> PairRegs) @@ (al :> ListRegs)
+(* ---- quick tier ------------------------------------------------------------------------------ *)
+(* q1a-c: two leaf kinds under one name at the root (set order by name, then type), all options;   *)
+(* q1d: the three of them together with few options                                                 *)
+U_q1a == {as, ai}
+V_q1a == (as :> StrVals) @@ (ai :> PairVals)
+R_q1a == (as :> StrRegs) @@ (ai :> PairRegs \cup {Pair(NULL, "=p")})
+U_q1b == {as, al}
+V_q1b == (as :> StrVals) @@ (al :> ListVals)
+R_q1b == (as :> StrRegs) @@ (al :> ListRegs)
+U_q1c == {ai, al}
+V_q1c == (ai :> PairVals) @@ (al :> ListVals)
+R_q1c == (ai :> PairRegs) @@ (al :> ListRegs)
+U_q1d == {as, ai, al}
+V_q1d == (as :> {<<"=x">>}) @@ (ai :> {<<"=h", "=p">>}) @@ (al :> {<<>>, <<"=x">>})
+R_q1d == (as :> {Plain(NULL)}) @@ (ai :> {Pair("=h", NULL)}) @@ (al :> {List(<<"=x">>)})
 
 (* q2: a typed string (text changes that keep the number), next to a plain one *)
 U_q2 == {as, bs}
@@ -46,23 +57,27 @@ U_q4 == {ao, abo, abas, aas, bo}
 V_q4 == (ao :> ObjVal) @@ (abo :> ObjVal) @@ (abas :> StrVals) @@ (aas :> {<<"=x">>}) @@ (bo :> ObjVal)
 R_q4 == (ao :> {Obj}) @@ (abo :> {Obj}) @@ (abas :> StrRegs) @@ (aas :> {Plain("=y")}) @@ (bo :> {Obj})
 
-(* t1: all leaf kinds under both names at the root *)
-U_t1 == {as, ai, al, bs, bl}
-V_t1 == (as :> StrVals) @@ (ai :> PairVals) @@ (al :> ListVals) @@ (bs :> {<<"=1h">>, <<"=60m">>, <<"=5">>}) @@ (bl :> {<<>>, <<"=y">>})
-R_t1 == (as :> StrRegs) @@ (ai :> PairRegs \cup {Pair("=h", "=p")}) @@ (al :> ListRegs)
-        @@ (bs :> {Typed("interval", NULL), Typed("interval", "=60m")}) @@ (bl :> ListRegs)
+(* ---- thorough tier (in addition) --------------------------------------------------------------- *)
+(* t0: the three leaf kinds under one name, all options *)
+U_t0 == {as, ai, al}
+V_t0 == (as :> StrVals) @@ (ai :> PairVals) @@ (al :> ListVals)
+R_t0 == (as :> StrRegs) @@ (ai :> PairRegs) @@ (al :> ListRegs)
 
-(* t2: an object holding every leaf kind, same name for object and string at the root *)
-U_t2 == {ao, as, aas, aai, abl, abs}
-V_t2 == (ao :> ObjVal) @@ (as :> StrVals) @@ (aas :> StrVals) @@ (aai :> PairVals) @@ (abl :> ListVals) @@ (abs :> {<<"=y">>})
-R_t2 == (ao :> {Obj}) @@ (as :> StrRegs) @@ (aas :> StrRegs) @@ (aai :> PairRegs) @@ (abl :> ListRegs) @@ (abs :> {Plain(NULL)})
+(* t1: leaf kinds under both names at the root, one of them typed *)
+U_t1 == {as, ai, bl, bs}
+V_t1 == (as :> StrVals) @@ (ai :> {<<"=h", "=p">>}) @@ (bl :> {<<>>, <<"=y">>}) @@ (bs :> {<<"=1h">>, <<"=60m">>})
+R_t1 == (as :> StrRegs) @@ (ai :> {Pair("=h", "=p")}) @@ (bl :> {List(<<"=x">>)})
+        @@ (bs :> {Typed("interval", NULL), Typed("interval", "=60m")})
+
+(* t2: an object holding every leaf kind, and a string with the object's name next to it *)
+U_t2 == {ao, as, aas, aai, abl}
+V_t2 == (ao :> ObjVal) @@ (as :> {<<"=x">>}) @@ (aas :> StrVals) @@ (aai :> {<<"=h", "=p">>}) @@ (abl :> ListVals)
+R_t2 == (ao :> {Obj}) @@ (as :> {Plain(NULL)}) @@ (aas :> StrRegs) @@ (aai :> {Pair(NULL, "=p")}) @@ (abl :> ListRegs)
 
 (* t3: depth 2 with leaves on every level and two top-level objects *)
-U_t3 == {ao, abo, abas, abbl, aas, bo, bas}
-V_t3 == (ao :> ObjVal) @@ (abo :> ObjVal) @@ (abas :> StrVals) @@ (abbl :> {<<>>, <<"=x">>}) @@ (aas :> StrVals)
-        @@ (bo :> ObjVal) @@ (bas :> {<<"=x">>})
-R_t3 == (ao :> {Obj}) @@ (abo :> {Obj}) @@ (abas :> StrRegs) @@ (abbl :> ListRegs) @@ (aas :> StrRegs)
-        @@ (bo :> {Obj}) @@ (bas :> {Plain("=y")})
+U_t3 == {ao, abo, abas, abbl, aas, bo}
+V_t3 == (ao :> ObjVal) @@ (abo :> ObjVal) @@ (abas :> StrVals) @@ (abbl :> {<<"=x">>}) @@ (aas :> StrVals) @@ (bo :> ObjVal)
+R_t3 == (ao :> {Obj}) @@ (abo :> {Obj}) @@ (abas :> StrRegs) @@ (abbl :> {List(<<>>)}) @@ (aas :> StrRegs) @@ (bo :> {Obj})
 
 (* the type-mismatch branch of conf_replace_value cannot be reached from conf_read: stated by     *)
 (* construction (source and target are paired by Cmp = 0, which includes the kind)                *)
